@@ -104,10 +104,9 @@ Section LatchViews.
 
   Lemma Inv_init : Inv init.
   Proof.
-    constructor; cbn; intros; try lia; try discriminate; auto.
-    - destruct j; discriminate.
-    - destruct j; discriminate.
-    - repeat split; auto; try lia. intros; discriminate.
+    constructor; cbn; intros; try lia; try discriminate; auto;
+      try (destruct j; discriminate).
+    repeat split; auto; try lia; intros; try discriminate; reflexivity.
   Qed.
 
   Ltac eqd a b := destruct (Nat.eqb_spec a b); subst.
@@ -139,7 +138,7 @@ Section LatchViews.
       + intros x a Ha. destruct (Harr x a Ha) as [A B]. split; auto.
         unfold fupd. eqd x u; auto. eapply vle_trans; [exact B|apply vle_inc].
       + intros x. unfold fupd. eqd x u.
-        * subst f. cbn. rewrite vinc_self. repeat split; auto; try lia. intros a Ha. congruence.
+        * cbn. rewrite vinc_self. repeat split; auto; try lia. intros a Ha. congruence.
         * apply Hdat.
       + intros w so Ho. destruct (Hop w so Ho) as (A & B & C). repeat split; auto.
         intros x a Ha Hle. specialize (C x a Ha Hle). unfold fupd. eqd w u; auto.
@@ -147,15 +146,16 @@ Section LatchViews.
       + rewrite Hrace. reflexivity.
     - (* AArrive *)
       destruct Hok as [Hu Hna].
-      set (L := length (ctr s)).
+      remember (length (ctr s)) as L eqn:HL0 in *.
       constructor; cbn [clk ctr seen dat race opened arrived aclk length]; auto.
+      all: rewrite <- ?HL0.
       + intros t. unfold fupd. eqd t u; [lia|]. specialize (Hseen t). lia.
       + intros j m Hn. destruct j as [|j]; cbn in Hn.
         * inversion Hn; subst m. unfold rmw_msg. cbn [mval].
           unfold read_val. destruct (nth_error (ctr s) 0) as [p|] eqn:Ep.
-          -- rewrite (Hval 0 p Ep). fold L. lia.
-          -- assert (L = 0) as HL by (unfold L; destruct (ctr s); [reflexivity|discriminate]). rewrite HL. cbn. lia.
-        * rewrite (Hval j m Hn). fold L. f_equal. lia.
+          -- rewrite (Hval 0 p Ep). try fold L. lia.
+          -- assert (L = 0) as HL by (rewrite HL0; destruct (ctr s); [reflexivity|discriminate]). rewrite HL. cbn. lia.
+        * rewrite (Hval j m Hn). try fold L. try (f_equal; lia).
       + intros j m Hn. destruct j as [|j]; cbn in Hn.
         * inversion Hn; subst m. unfold rmw_msg. cbn [mrel]. rewrite Hrel.
           destruct (nth_error (ctr s) 0) as [p|] eqn:Ep.
@@ -167,21 +167,21 @@ Section LatchViews.
           -- eexists; split; [reflexivity|].
              intros x a Ha Hle. unfold fupd in Ha |- *. eqd x u; [apply vle_refl|].
              destruct (Harr x a Ha) as [[A B] _].
-             assert (L = 0) as HL by (unfold L; destruct (ctr s); [reflexivity|discriminate]).
-             fold L in B. lia.
+             assert (L = 0) as HL by (rewrite HL0; destruct (ctr s); [reflexivity|discriminate]).
+             try fold L in B. lia.
         * destruct (Hrl j m Hn) as [r [Er Hr]]. exists r. split; auto.
           intros x a Ha Hle. unfold fupd in Ha |- *. eqd x u.
-          -- inversion Ha; subst a. fold L in Hle.
+          -- inversion Ha; subst a. try fold L in Hle.
              assert (j < L) by (apply nth_error_Some; congruence). lia.
           -- apply (Hr x a Ha). lia.
       + intros x a Ha. unfold fupd in *. eqd x u.
-        * inversion Ha; subst a. fold L. split; [lia|].
+        * inversion Ha; subst a. try fold L. split; [lia|].
           eapply vle_trans; [|apply vle_inc]. apply acq_clock_ge.
         * destruct (Harr x a Ha) as [A B]. split; [lia|exact B].
-      + intros k Hk. fold L in Hk.
+      + intros k Hk. try fold L in Hk.
         destruct (Nat.eq_dec k (S L)) as [->|Hne].
         * exists u. split; auto. unfold fupd. rewrite Nat.eqb_refl. reflexivity.
-        * destruct (Hall k) as [x [Hx Ha]]; [fold L; lia|]. exists x. split; auto.
+        * destruct (Hall k) as [x [Hx Ha]]; [try fold L; lia|]. exists x. split; auto.
           unfold fupd. eqd x u; [congruence|exact Ha].
       + intros x. destruct (Hdat x) as (Hd1 & Hd2 & Hd3 & Hd4). unfold fupd. eqd x u.
         * repeat split; auto.
@@ -237,7 +237,7 @@ Section LatchViews.
         by (unfold ft_read in Er; inversion Er; reflexivity).
       constructor; cbn; auto.
       + intros x. unfold fupd at 1 2 3 4 5. eqd x u; [|apply Hdat].
-        subst f. cbn. repeat split; auto. intros Hn. congruence.
+        cbn. repeat split; auto. intros Hn. congruence.
       + rewrite Hrace. reflexivity.
   Qed.
 
